@@ -33,6 +33,9 @@ CHECKS['C10'] = dict(cat='exploration', engine='numcheck', tech='bounded-exhaust
 CHECKS['C09'] = dict(cat='exploration', engine='normcheck', tech='exhaustive enumeration of all Unicode code points and of all pairs/triples over an ICU-derived interesting set, in-process against the real library; ICU normaliser/case-folder as oracle',
       text='Every Unicode code point (including lone surrogates) is used as data name, block code, frame code (through the SQL layer) and table key and must be accepted exactly when an independently written CIF 2.0 character predicate allows it, with the documented INVALID_* code otherwise; cif_normalize is checked for idempotence and for equal results on NFC / NFD / reordered-mark spellings of every code point in three contexts; all ordered pairs (thorough: triples) of about 100 interesting code points are checked for the same properties and for packet / table / block / frame / item matching (lookup, duplicate creation, removal, original spelling, most recent key spelling) exactly when the normalised forms agree; length limits 2040-2050 code points with and without supplementary characters.',
       note='ICU 72 (Unicode 15) is the trusted oracle for normalisation and folding. Matching is defined through cif_normalize equality, as in the statement; tuples longer than 3 are not covered.', ref='C09')
+CHECKS['C18'] = dict(cat='exploration', engine='strcheck', tech='bounded-exhaustive enumeration of all short strings over the syntactically significant alphabet, in-process; independent statistics / grammar predicates and parse-back through the real CIF 2.0 parser as oracle',
+      text='All strings of length <= 4 (thorough 5) over 18 significant characters and <= 6 (thorough 8) over the quote/semicolon/newline alphabet, crossed with allow_unquoted x allow_triple_quoted x five length limits: exact statistics, admissible and usable delimiter, simple forms preferred when they fit, and - with the real limit - the string presented with the recommended delimiter in four layouts (after a name, at column 1, after another value, ending at column 2048) must be read back by cif_parse as exactly that string with the right quoting status. set_quoted(NOT_QUOTED), the scanner and cif_is_reserved_string are compared with a transcription of the CIF 2.0 grammar.',
+      note='Strings longer than the bound are covered only by the a^n family around the 2048 thresholds. Text fields are presented with my own prefix-protocol encoder.', ref='C18')
 NOT_APPLICABLE = {}
 
 def main():
